@@ -1,6 +1,7 @@
 package props
 
 import (
+	"sync"
 	"fmt"
 	"time"
 	"strings"
@@ -39,6 +40,10 @@ func init() {
 		},
 		Exhaustive: func(tier string) bool { return tier == "thorough" },
 		Run:        runC16,
+		// the value types are used from several goroutines at once (the parallel parser's workers construct them, commands
+		// format them): one child of the -race build formats and re-reads values concurrently
+		RaceShards: func(tier string) int { return 1 },
+		RunRace:    runC16Race,
 	})
 }
 
@@ -575,4 +580,66 @@ func c16Dates(e *core.Env, y int) int64 {
 		e.Sample(map[string]any{"block": "date strings of a year", "year": y, "strings": n, "accepted": accepted})
 	}
 	return n
+}
+
+// runC16Race: 16 goroutines construct, format and re-read durations, times, dates and ranges at the same moment, under
+// the race detector; every result is also compared with the literal it came from.
+func runC16Race(e *core.Env) {
+	if !e.Mine(0) {
+		return
+	}
+	e.Begin(0, []byte("concurrent use of the value types"))
+	var wg sync.WaitGroup
+	var mu sync.Mutex
+	bad := ""
+	note := func(s string) {
+		mu.Lock()
+		if bad == "" {
+			bad = s
+		}
+		mu.Unlock()
+	}
+	var calls int64
+	for g := 0; g < 16; g++ {
+		wg.Add(1)
+		go func(g int) {
+			defer wg.Done()
+			n := int64(0)
+			for k := 0; k < 4000; k++ {
+				mins := (k*37+g*101)%20000 - 10000
+				lit := ref.FormatSignedDuration(mins)
+				if mins >= 0 {
+					lit = ref.FormatPlainDuration(mins)
+				}
+				if d, err := klog.NewDurationFromString(lit); err != nil || d.ToString() != lit || d.InMinutes() != mins {
+					note(fmt.Sprintf("duration %q does not round-trip under concurrent use", lit))
+				}
+				off := (k*13 + g*7) % 1440
+				tl := ref.FormatTime(ref.TimeV{Off: off, H12: k%2 == 0})
+				if t, err := klog.NewTimeFromString(tl); err != nil || t.ToString() != tl {
+					note(fmt.Sprintf("time %q does not round-trip under concurrent use", tl))
+				} else if t2, perr := t.Plus(klog.NewDuration(0, 1)); perr == nil {
+					_ = t2.ToString()
+				}
+				dl := ref.FormatDate(ref.DateFromDays(ref.DaysFromCivil(2000, 1, 1)+(k*17+g)%9000), k%3 != 0)
+				if d, err := klog.NewDateFromString(dl); err != nil || d.ToString() != dl {
+					note(fmt.Sprintf("date %q does not round-trip under concurrent use", dl))
+				} else {
+					_ = d.PlusDays(1).ToString()
+					_ = d.Weekday()
+				}
+				n += 3
+			}
+			mu.Lock()
+			calls += n
+			mu.Unlock()
+		}(g)
+	}
+	wg.Wait()
+	if bad != "" {
+		e.Violation("value-round-trip-under-concurrent-use", bad, nil)
+	}
+	e.Evals(calls)
+	e.Count("concurrent_value_round_trips_under_race_detector", calls)
+	e.End(0)
 }
